@@ -14,6 +14,7 @@ import (
 	"io/fs"
 	"reflect"
 	"regexp"
+	"runtime"
 	"sort"
 	"strings"
 	"sync"
@@ -374,8 +375,17 @@ func init() {
 		for x := range j.H {
 			out[x] = replay(j.H[x])
 		}
-		return out
+		// Goroutines of cancelled evaluations that never end (the known findings of C09 / C10) stay in this
+		// process and keep a core busy each: the process asks to be replaced once a few of them are left over.
+		time.Sleep(5 * time.Millisecond)
+		return batchOut{Restart: runtime.NumGoroutine() > 10, Obs: out}
 	})
+}
+
+// batchOut is what a child hands back for a batch of histories.
+type batchOut struct {
+	Restart bool  `json:"_restart"`
+	Obs     []obs `json:"obs"`
 }
 
 func main() { fw.Main("C10", "model_checking", run) }
@@ -456,7 +466,9 @@ INVARIANTS UsesCountUp Emit
 	for ji, r := range results {
 		var os []obs
 		if r.Out != nil {
-			json.Unmarshal(r.Out, &os)
+			var bo batchOut
+			json.Unmarshal(r.Out, &bo)
+			os = bo.Obs
 		}
 		hs := jobs[ji].(jobT).H
 		for x, h := range hs {
